@@ -199,6 +199,61 @@ func runC16(r *Run) {
 		gasRule(r, m)
 	}
 	r.Floor("R2", "spend handlers with a native message", nTx, 10)
+	// R4: query handlers that collect results through keeper iterators must visit every entry
+	r.Rule("R4", "PATH.query-completeness: a closure passed by a precompile query handler to a keeper Iterate* method returns the constant false on every path (the iteration is never cut short)")
+	nCb := 0
+	for _, fn := range P.Funcs {
+		if !strings.Contains(fnPkgPath(fn), "/precompiles/") || isTestSupport(P, fn) {
+			continue
+		}
+		eachCall(fn, func(ci CallInfo) {
+			if !strings.HasPrefix(ci.Name, "Iterate") || ci.Recv == "" {
+				return
+			}
+			var cbs []*ssa.Function
+			for _, a := range ci.Instr.Common().Args {
+				switch x := a.(type) {
+				case *ssa.MakeClosure:
+					if f, ok := x.Fn.(*ssa.Function); ok {
+						cbs = append(cbs, f)
+					}
+				case *ssa.Function:
+					cbs = append(cbs, x)
+				case *ssa.Call:
+					// callback produced by a helper: every closure the helper can return
+					if sc := x.Call.StaticCallee(); sc != nil && strings.Contains(fnPkgPath(sc), "/precompiles/") {
+						if _, isFn := x.Type().Underlying().(*types.Signature); isFn {
+							cbs = append(cbs, sc.AnonFuncs...)
+						}
+					}
+				}
+			}
+			for _, cb := range cbs {
+				if cb == nil || cb.Signature.Results().Len() != 1 {
+					continue
+				}
+				if b, ok := cb.Signature.Results().At(0).Type().Underlying().(*types.Basic); !ok || b.Kind() != types.Bool {
+					continue
+				}
+				nCb++
+				bad := ""
+				eachInstr(cb, func(in ssa.Instruction) {
+					if ret, ok := in.(*ssa.Return); ok {
+						if cb.Recover != nil && ret.Block() == cb.Recover {
+							return
+						}
+						v := retOperands(ret)[0]
+						if k, isK := v.(*ssa.Const); !isK || k.Value == nil || k.Value.String() != "false" {
+							bad = P.Pos(instrPos(in))
+						}
+					}
+				})
+				// jailed-validator style filters use a bare `return` of a named (zero) result: also constant false
+				r.Check(bad == "", "R4", fnID(cb)+"#never-stops", P.Pos(fnPos(cb)), "callback always returns false", "the iterator callback can return something other than the constant false (at "+bad+"): the iteration stops early and the precompile reports fewer entries than the module holds")
+			}
+		})
+	}
+	r.Floor("R4", "iterator callbacks in precompiles", nCb, 3)
 	// RunSetup
 	if rs, ok := P.FnOK("(precompiles/common.Precompile).RunSetup"); ok {
 		okMeter := false
